@@ -25,8 +25,8 @@ ASSUMPTIONS = [
     "the source dataset is not written during the run",
 ]
 EXHAUSTIVE = {"thorough": True}
-KINDS = ["identity", "dropodd", "dup", "create"]
-KIND_COQ = {"identity": "KIdentity", "dropodd": "KDropOdd", "dup": "KDup", "create": "KCreate"}
+KINDS = ["identity", "dropodd", "dup", "create", "droplow"]
+KIND_COQ = {"identity": "KIdentity", "dropodd": "KDropOdd", "dup": "KDup", "create": "KCreate", "droplow": "KDropLow"}
 
 
 def mk(n, batch, par, kind="identity", full=False, wrap=True):
@@ -35,7 +35,10 @@ def mk(n, batch, par, kind="identity", full=False, wrap=True):
 
 def witness_cases():
     return [mk(11, 100, 10), mk(15, 100, 10), mk(19, 100, 10), mk(4, 100, 3), mk(14, 5, 4, "create"),
-            mk(11, 100, 10, "identity", False, False), mk(11, 100, 10, "dup", True, True)]
+            mk(11, 100, 10, "identity", False, False), mk(11, 100, 10, "dup", True, True),
+            # a filtering transform that empties a whole NON-final page must not end the run (fullsync and incremental)
+            mk(6, 2, 1, "droplow", True, True), mk(5, 1, 1, "dropodd", True, True), mk(7, 1, 2, "droplow", False, True),
+            mk(6, 2, 1, "droplow", True, False)]
 
 
 def corpus_cases():
@@ -51,6 +54,10 @@ def gen(rng, tier):
                 for d in range(0, p):
                     n = base + d
                     out.append(mk(n, 1000, p, rng.choice(KINDS), False, rng.chance(3, 4)))
+        for b in (1, 2):
+            for kind in ("droplow", "dropodd"):
+                out.append(mk(rng.range(4, 9), b, rng.choice([1, 2, 3]), kind, True, rng.chance(1, 2)))
+                out.append(mk(rng.range(4, 9), b, rng.choice([1, 2, 3]), kind, False, rng.chance(1, 2)))
         for _ in range(40):
             n = rng.range(0, 40)
             out.append(mk(n, rng.choice([1, 2, 3, 5, 7, 10, 1000]), rng.range(1, 12), rng.choice(KINDS),
@@ -65,11 +72,11 @@ def gen(rng, tier):
     # thorough: the whole box, one page
     for n in range(0, 25):
         for p in range(1, 13):
-            out.append(mk(n, 1000, p, KINDS[(n + p) % 4], False, True))
+            out.append(mk(n, 1000, p, KINDS[(n + p) % 5], False, True))
     for n in range(1, 25):
         for p in (2, 3, 5, 10):
             for b in range(1, 7):
-                out.append(mk(n, b, p, KINDS[(n + p + b) % 4], (n + b) % 5 == 0, (n + p) % 3 != 0))
+                out.append(mk(n, b, p, KINDS[(n + p + b) % 5], (n + b) % 3 == 0, (n + p) % 3 != 0))
     for _ in range(600):
         n = rng.range(25, 200)
         out.append(mk(n, rng.choice([7, 10, 16, 33, 64, 1000]), rng.range(1, 40), rng.choice(KINDS),
